@@ -152,8 +152,11 @@ def places_for(fmt: str, problem: str) -> List[str]:
     return ['-']
 
 
-def problems_for(kind: str) -> List[str]:
-    return ['xref', 'markup', 'field'] + (['param'] if kind in ('function', 'method') else [])
+def problems_for(kind: str, fmt: str = 'epytext') -> List[str]:
+    out = ['xref', 'markup', 'field'] + (['param'] if kind in ('function', 'method') else [])
+    if fmt in ('google', 'numpy') and kind in ('attribute', 'classattribute'):
+        out.remove('field')       # napoleon reads an attribute docstring as "type: description"; a field list is not passed on
+    return out
 
 
 def docstring_value(layout: Dict[str, Any], before, blk, after) -> Tuple[str, int]:
@@ -258,6 +261,9 @@ def make_case(fmt: str, kind: str, problem: str, place: str, variant: int, layou
     layout = dict(layout)
     layout['code_indent'] = code_indent
     layout['ci'] = max(0, code_indent + layout.get('ci_delta', 0))
+    if fmt == 'epytext' and place == 'item' and layout.get('opening_text'):
+        # epytext cannot tell the indentation of text on the opening line ("Lists must be indented")
+        layout.update(opening_text=False, first_ws='', leading=[])
     before, blk, first_rel, prob_rel, after, msg = blocks_for(fmt, problem, place, variant, name, bool(layout.get('raw')), has_param)
     value, pidx = docstring_value(layout, before, blk, after)
     case = {'fmt': fmt, 'kind': kind, 'problem': problem, 'place': place, 'variant': variant, 'layout': layout, 'k': k,
@@ -378,7 +384,7 @@ def oracle(case: Dict[str, Any], obs: List[Dict[str, Any]]) -> Optional[Dict[str
                             % (ln, 'the first line of the block containing the problem' if case['fmt'] in ('epytext', 'restructuredtext')
                                else 'a line of the docstring at fault', t['n0'], t['end'], case['fmt'], case['kind'], case['target']),
                     'expected': exp, 'observed': ln,
-                    'excess': (ln - t['first']) if case['fmt'] == 'epytext' else (ln - t['prob'] if ln > t['prob'] else ln - t['first'])}
+                    'excess': ln - t['first'], 'first': t['first'], 'prob': t['prob'], 'n0': t['n0'], 'end': t['end']}
         lines_seen.append(ln)
     if planted and len(lines_seen) == 2 and lines_seen[1] - lines_seen[0] != case['k']:
         return {'what': 'moving the definition down by %d lines moved the reported line by %d' % (case['k'], lines_seen[1] - lines_seen[0]),
@@ -404,6 +410,46 @@ def oracle_doc(c: Dict[str, Any], r: Any) -> Optional[Dict[str, Any]]:
         return {'what': 'docstring_lineno=%d says the stored docstring starts at line %d of the literal (opening line %d), '
                         'but its first line is not that line' % (ln, k, c['lineno']),
                 'expected': want[:len(got)] if want else None, 'observed': got, 'excess': ws_excess(doc)}
+    return None
+
+
+def oracle_msgs(c: Dict[str, Any], r: Any) -> Optional[Dict[str, Any]]:
+    """Every problem handed to System.msg (negative threshold) is counted exactly once, unless it is a repetition of a
+    once-only message; what is printed does not matter."""
+    if isinstance(r, dict):
+        return {'what': 'System.msg raised ' + r['exception'], 'expected': 'no exception', 'observed': r}
+    seen = set()
+    want = 0
+    shown = []
+    for section, m, thresh, topthresh, once in c['calls']:
+        if once:
+            if (section, m) in seen:
+                continue
+            seen.add((section, m))
+        if thresh < 0:
+            want += 1
+        if thresh <= c['verbosity'] <= topthresh:
+            shown.append(m)
+    if r[0] != want:
+        return {'what': 'System.violations is %d after %d problem messages that were not once-only repetitions' % (r[0], want),
+                'expected': want, 'observed': r[0]}
+    if r[1] != shown:
+        return {'what': 'printed messages differ from the calls visible at verbosity %d' % c['verbosity'], 'expected': shown, 'observed': r[1]}
+    return None
+
+
+def oracle_tail(c: Dict[str, Any], r: Any) -> Optional[Dict[str, Any]]:
+    """The exit status rule on the real driver.main (system substituted): counting main's own summary of docstring
+    errors as reported problems."""
+    if isinstance(r, dict):
+        return {'what': 'driver.main raised ' + r['exception'], 'expected': 'an exit status', 'observed': r}
+    pe = {sec: names for sec, names in c['pe']}
+    some = any(bool(v) for v in pe.values())
+    reported = c['violations'] + ((1 + len(pe['docstring'])) if pe.get('docstring') else 0)
+    want = 3 if (c['wae'] and reported > 0) else (2 if some else 0)
+    if r[0] != want:
+        return {'what': 'exit status with warnings_as_errors=%s, %d problems counted, parse_errors=%s' % (bool(c['wae']), reported, pe),
+                'expected': want, 'observed': r[0]}
     return None
 
 
@@ -511,6 +557,8 @@ class Check(PropertyCheck):
             if oth is not None and v % 2 != 0:
                 pe.append(['annotation', oth])
             cases.append({'op': 'tail', 'verbosity': v, 'wae': wae, 'violations': viol, 'pe': pe})
+        for line in [None, 0, 1, 2, 7, 40]:
+            cases.append({'op': 'rstreader', 'line': line})
         # (h) attribute line from a field
         for fmt, fl in (('epytext', '@ivar x: the x'), ('restructuredtext', ':ivar x: the x')):
             for lead in (0, 1, 2):
@@ -544,6 +592,8 @@ class Check(PropertyCheck):
                 if sec == 'docstring':
                     n = len(names)
             return enc([6, c['verbosity'], c['wae'], "these %d objects' docstrings contain syntax errors:" % n, c['violations'], c['pe']])
+        if op == 'rstreader':
+            return enc([8, [] if c['line'] is None else [c['line']]])
         return None
 
     def compare_unit(self, c: Dict[str, Any], r: Any, m: Any) -> Optional[Tuple[Any, Any]]:
@@ -561,6 +611,8 @@ class Check(PropertyCheck):
             mm, ii = [m[0], [txt(x) for x in m[1]], sorted(txt(x) for x in m[2])], r[:3]
         elif op == 'tail':
             mm, ii = m, r
+        elif op == 'rstreader':
+            mm, ii = [m[0][0] if m[0] else None, m[1]], r
         elif op == 'attrline':
             ds = 2 + c['lead']                       # the literal opens on line 2, `lead` blank lines are skipped
             mm, ii = [ds, ds + 4, ds + 4], r         # docstring_lineno + field.lineno (the field is cleaned line 4)
@@ -576,6 +628,7 @@ class Check(PropertyCheck):
         mod: Dict[int, Any] = {i: dec(o) for i, o in zip(idx, mouts)}
         self.evaluations += len(cases)
         ncorr = 0
+        noracle = 0
         for i, (c, r) in enumerate(zip(cases, impl)):
             self.count('unit_' + c['op'])
             m = mod.get(i)
@@ -594,6 +647,9 @@ class Check(PropertyCheck):
                     raise RuntimeError('spec validation failed: has_content(%r)' % c['doc'])
                 if c['doc'].strip() and fit != (ws_excess(c['doc']) == 0):
                     raise RuntimeError('harness self-check failed: ws_excess disagrees with Spec.CleanDoc.leading_ws_fit on %r' % c['doc'])
+                if c['doc'].strip() and m[4] != ws_excess(c['doc']):
+                    raise RuntimeError('harness self-check failed: ws_excess(%r)=%d, Coq top_dropped-top_kept=%d'
+                                       % (c['doc'], ws_excess(c['doc']), m[4]))
                 self.count('unit_doc_fit' if fit else 'unit_doc_overlong_ws_line')
             d = self.compare_unit(c, r, m)
             if d is not None:
@@ -607,6 +663,11 @@ class Check(PropertyCheck):
                     self.count('unit_doc_oracle_failures')
                     out.append(Violation('oracle', o['what'], case=dict(c, excess=o.get('excess', 0)), expected=o['expected'],
                                          observed=o['observed']))
+            elif c['op'] in ('msgs', 'tail'):
+                o = (oracle_msgs if c['op'] == 'msgs' else oracle_tail)(c, r)
+                if o is not None and noracle < 20:
+                    noracle += 1
+                    out.append(Violation('oracle', o['what'], case=c, expected=o['expected'], observed=o['observed']))
         for c in cases[4000:4002]:
             self.sample(c)
 
@@ -617,7 +678,7 @@ class Check(PropertyCheck):
             v = 0
             for fmt in FMTS:
                 for kind in KINDS:
-                    for problem in problems_for(kind):
+                    for problem in problems_for(kind, fmt):
                         for place in places_for(fmt, problem):
                             for lay in (LAYOUT_BELOW, LAYOUT_OPEN):
                                 v += 1
@@ -635,7 +696,7 @@ class Check(PropertyCheck):
         for i in range(n_random):
             fmt = rng.choice(FMTS)
             kind = rng.choice(KINDS)
-            problem = rng.choice(problems_for(kind) * 6 + ['none'])
+            problem = rng.choice(problems_for(kind, fmt) * 6 + ['none'])
             place = rng.choice(places_for(fmt, problem)) if problem != 'none' else '-'
             code_indent = {'module': 0, 'class': 4, 'function': 4, 'method': 8, 'attribute': 0, 'classattribute': 4}[kind]
             r = rng.random()
@@ -737,7 +798,7 @@ class Check(PropertyCheck):
                     out.append(Violation('correspondence', 'e2e: ' + bad[0], case=c, expected=bad[1], observed=bad[2]))
             orc = oracle(c, obs)
             if orc is not None:
-                cc = dict(c, excess=orc.get('excess', 0))
+                cc = dict(c, **{k2: orc[k2] for k2 in ('excess', 'first', 'prob', 'n0', 'end') if k2 in orc})
                 out.append(Violation('oracle', orc['what'], case=cc, expected=orc['expected'], observed=orc['observed']))
                 if record:
                     self.count('e2e_oracle_failures')
@@ -751,7 +812,7 @@ class Check(PropertyCheck):
     def correspondence(self) -> List[Violation]:
         out: List[Violation] = []
         self.run_unit(out)
-        nrand = 180 if self.tier == 'quick' else 14000
+        nrand = 180 if self.tier == "quick" else 9000
         cases = self.e2e_cases(nrand, self.rng)
         self.stats['e2e_random'] = nrand
         self.run_e2e(cases, out)
@@ -760,7 +821,13 @@ class Check(PropertyCheck):
                           'x {text below, text on the opening line}; layouts/offsets beyond that are sampled')
         self.notes.append('reST: docutils/get_lineno point at the line holding the problem inside a multi-line block; the oracle accepts '
                           'any line from the first line of the block to the line of the problem')
-        # keep the output small: oracle violations of the known class first collapse into one KNOWN-FINDING line
+        # prefer a generated module as the concrete failing input: when an end-to-end run already fails the property
+        # (and is not a known finding), the unit-level msg()/exit-status oracle failures only repeat it
+        known, _ = lib.load_known_findings(self.id)
+        e2e_fail = [v for v in out if v.kind == 'oracle' and isinstance(v.case, dict) and 'sources' in v.case
+                    and self.classify_known(v, known) is None]
+        if e2e_fail:
+            out = [v for v in out if not (v.kind == 'oracle' and isinstance(v.case, dict) and v.case.get('op') in ('msgs', 'tail'))]
         return out
 
     def search(self, broken: List[Violation]) -> List[Violation]:
@@ -777,6 +844,24 @@ class Check(PropertyCheck):
         c = v.case
         if not isinstance(c, dict):
             return None
+        if v.kind == 'oracle' and 'value' in c and 'sources' in c and 'reported line' in v.what:
+            # subtract what the two known defects add; what remains must satisfy the property
+            ws = ws_excess(c['value'])
+            rst = 1 if (c['fmt'] != 'epytext' and c['problem'] == 'markup') else 0
+            if ws + rst > 0 and isinstance(v.observed, int) and isinstance(c.get('first'), int):
+                adj = v.observed - ws - rst
+                if c['fmt'] == 'epytext':
+                    ok = adj == c['first']
+                elif c['fmt'] == 'restructuredtext':
+                    ok = c['first'] <= adj <= c['prob']
+                else:
+                    ok = c['n0'] <= adj <= c['end']
+                if ok:
+                    want = 'rst_parse_error_line_is_one_based' if rst else 'leading_ws_line_longer_than_margin'
+                    for k in known:
+                        if k.get('match', {}).get('condition') == want:
+                            return k
+            return None
         for k in known:
             m = k.get('match', {})
             if m.get('condition') != 'leading_ws_line_longer_than_margin':
@@ -791,9 +876,7 @@ class Check(PropertyCheck):
                     if al is not None and v.observed == al[:len(v.observed)]:
                         return k
             elif v.kind == 'oracle' and 'value' in c and 'sources' in c:
-                ex = ws_excess(c['value'])
-                if ex > 0 and c.get('excess') == ex and 'reported line' in v.what:
-                    return k
+                pass
         return None
 
     def replay(self, data: Any) -> int:
@@ -804,9 +887,10 @@ class Check(PropertyCheck):
             print('pydoctor :', json.dumps(r)[:1500])
             if data.get('expected') is not None:
                 print('recorded expectation:', json.dumps(data['expected'])[:800])
-            if case['op'] == 'doc':
-                o = oracle_doc(case, r)
-                print('property :', o['what'] if o else 'holds on this input')
+            if case['op'] in ('doc', 'msgs', 'tail'):
+                o = {'doc': oracle_doc, 'msgs': oracle_msgs, 'tail': oracle_tail}[case['op']](case, r)
+                print('property :', (o['what'] + ' expected=%s observed=%s' % (str(o['expected'])[:300], str(o['observed'])[:300])) if o
+                      else 'holds on this input')
                 return 1 if o else 0
             b, _ = lib.build_model(self.id + '_lines', 'XLines.v')
             mi = self.model_input(case)
